@@ -2,6 +2,7 @@ package slog
 
 import (
 	"context"
+	"encoding/json"
 	"fmt"
 	logslog "log/slog"
 	"strings"
@@ -241,14 +242,22 @@ func (level Level) ShortTag(length int) string {
 
 func (level *Level) UnmarshalJSON(text []byte) error {
 	if n := len(text); n >= 2 && text[0] == '"' && text[n-1] == '"' {
-		text = text[1 : n-1] // MarshalJSON writes the name as a JSON string
+		// MarshalJSON writes the name as a JSON string; a registered title may need escapes
+		var name string
+		if err := json.Unmarshal(text, &name); err == nil {
+			return level.UnmarshalText([]byte(name))
+		}
+		text = text[1 : n-1]
 	}
 	return level.UnmarshalText(text)
 }
 
 func (level Level) MarshalJSON() ([]byte, error) {
 	b, err := level.MarshalText()
-	return []byte(fmt.Sprintf("%q", string(b))), err
+	if err != nil {
+		return []byte(fmt.Sprintf("%q", string(b))), err
+	}
+	return json.Marshal(string(b)) // JSON escapes, not Go's (%q)
 }
 
 // UnmarshalText implements encoding.TextUnmarshaler.
